@@ -131,6 +131,9 @@ pub fn run_sequential(case: &Case) -> RunOutput {
     out.trace_hash = format!("{:016x}", sim.trace_hash());
     out.sim_micros = sim.inner.cfg.epoch_micros; // replaced below
     out.multi_choice_steps = sim.inner.multi_choice_steps.get();
+    if sim.inner.deferred_writes.get() > 0 {
+        out.extra.insert("file_writes_completed_later".into(), sim.inner.deferred_writes.get());
+    }
     out.max_runnable = sim.inner.max_runnable.get();
     out.yields = sim.inner.yields.get();
     out.connections = sim.inner.connections.get();
